@@ -787,18 +787,42 @@ static void run_force(int which)
                     for (int b = 0; b < nb; b++)
                         if (idx[i] == sl[b]) { rng_t rd; rng_seed(&rd, MO.seed, (uint64_t)(e * 131 + b)); damage((uint8_t *)pr.ptr[i], s->flen, kinds_b[b], &rd, n); }
                 uint32_t valid = S & ~Bm;
+                /* decoys: an extra, damaged copy of an index whose good copy is also in the list, placed before or
+                 * after it (the valid set does not change: the good copy passes validation, the decoy must not count) */
+                int ndecoy = 0; char dk[64] = "";
+                if (e % 3 == 1 && cnt > 0 && cnt < PRES_MAX - 4) {
+                    int want = 1 + (int)rng_below(&r, 2);
+                    for (int q = 0; q < want; q++) {
+                        int src = (int)rng_below(&r, (uint32_t)cnt);
+                        if (!((valid >> idx[src]) & 1)) continue;
+                        void *bb = NULL; if (posix_memalign(&bb, 16, s->flen + 16)) abort();
+                        int mis = rng_below(&r, 2) ? 0 : 1 + (int)rng_below(&r, 15);
+                        memcpy((uint8_t *)bb + mis, s->frag[idx[src]], s->flen);
+                        int kd2 = (int)rng_below(&r, DMG_KINDS);
+                        rng_t rd; rng_seed(&rd, MO.seed, (uint64_t)(e * 977 + q)); damage((uint8_t *)bb + mis, s->flen, kd2, &rd, n);
+                        int pos = rng_below(&r, 2) ? (int)rng_below(&r, (uint32_t)src + 1) : src + 1 + (int)rng_below(&r, (uint32_t)(cnt - src));
+                        memmove(&pr.ptr[pos + 1], &pr.ptr[pos], sizeof(pr.ptr[0]) * (size_t)(cnt - pos));
+                        memmove(&pr.base[pos + 1], &pr.base[pos], sizeof(pr.base[0]) * (size_t)(cnt - pos));
+                        memmove(&pr.kind[pos + 1], &pr.kind[pos], sizeof(pr.kind[0]) * (size_t)(cnt - pos));
+                        memmove(&idx[pos + 1], &idx[pos], sizeof(idx[0]) * (size_t)(cnt - pos));
+                        pr.ptr[pos] = (char *)bb + mis; pr.base[pos] = bb; pr.kind[pos] = 0; idx[pos] = idx[src + (pos <= src)];
+                        cnt++; pr.n = cnt; ndecoy++;
+                        snprintf(dk + strlen(dk), sizeof dk - strlen(dk), "%s%s@%s", q ? "+" : "", dmg_name[kd2], pos <= src ? "before" : "after");
+                    }
+                    mon_count("cases_with_damaged_duplicate_of_a_valid_index", ndecoy ? 1 : 0);
+                }
                 int within = must_succeed(&x, valid);
                 char *out = NULL; uint64_t outlen = 0;
                 int rc = liberasurecode_decode(x.desc, pr.ptr, cnt, s->flen, 1, &out, &outlen);
                 mon_count("evaluations", 1);
                 if (rc == 0) {
                     int exact = outlen == s->len && (s->len == 0 || !memcmp(out, s->data, s->len));
-                    if (!exact) mon_viol("C20", "forced-decode-wrong-bytes", "decode(force=1) returned 0 with bytes/length different from the original (damaged=%s kinds=%s valid=0x%x)", bm, kd, valid);
+                    if (!exact) mon_viol("C20", "forced-decode-wrong-bytes", "decode(force=1) returned 0 with bytes/length different from the original (damaged=%s kinds=%s valid=0x%x decoys=%s)", bm, kd, valid, dk);
                     liberasurecode_decode_cleanup(x.desc, out);
                     mon_count(within ? "force_ok_within" : "force_ok_beyond_exact", 1);
                 } else if (rc > 0) mon_viol("C20", "forced-decode-positive-rc", "rc=%d", rc);
                 else {
-                    if (within) mon_viol("C20", "forced-decode-refused", "decode(force=1) returned %d although the valid fragments 0x%x alone are within tolerance (damaged=%s kinds=%s)", rc, valid, bm, kd);
+                    if (within) mon_viol("C20", "forced-decode-refused", "decode(force=1) returned %d although the valid fragments 0x%x alone are within tolerance (damaged=%s kinds=%s decoys=%s)", rc, valid, bm, kd, dk);
                     mon_count(within ? "force_err_within" : "force_err_beyond", 1);
                 }
                 if (nb) mon_distinct("nontrivial", mon_hash_u64(S, mon_hash_u64(Bm * 7u + (uint32_t)kinds_b[0], mon_hash_str(x.ck, 8))));
